@@ -118,7 +118,7 @@ def tier_plan(prop, tier):
         "C15": [("plain", 2000 if q else 30000)],
         "C16": [("plain", 500 if q else 6000), ("asan", 100 if q else 2500)],
         "C17": [("plain", 960 if q else 9600)],
-        "C18": [("plain", 450 if q else 100000), ("tsan", 100 if q else 12000)],
+        "C18": [("plain", 400 if q else 100000), ("tsan", 90 if q else 12000), ("asan", 300 if q else 30000)],
     }
     return P[prop]
 
